@@ -26,6 +26,10 @@ fn label_entry_lines(p: &Program, pr: &Printed) -> std::collections::HashMap<Str
                     m.insert(name.clone(), pr.line_of_src[j]);
                     break;
                 }
+                // a label names what follows it: data, or the end of its segment, are no instruction
+                if matches!(&p.lines[j], Line::Data(_) | Line::SecData | Line::SecText) {
+                    break;
+                }
             }
         }
     }
@@ -90,6 +94,19 @@ pub fn check_program(name: &str, p: &Program, acc: &mut Acc) {
             format!("function entries at lines {got:?}, call targets at lines {want:?} (missing {missing:?}, extra {extra:?}; 0-based)"),
             replay.clone(),
         );
+    }
+    // ---- (1b) the names of a function are the labels that stand on its first instruction
+    for f in &gv.funcs {
+        let line = gv.nodes[f.entry].line;
+        let names: BTreeSet<String> = entry_line.iter().filter(|(_, l)| **l == line).map(|(n, _)| n.clone()).collect();
+        if f.labels != names {
+            let foreign: Vec<&String> = f.labels.difference(&names).collect();
+            acc.violation(
+                format!("C11|names|{}|{name}", if foreign.is_empty() { "missing" } else { "foreign" }),
+                format!("function entered at line {}: the tool names it {:?}, the labels on that instruction are {:?}", line + 1, f.labels, names),
+                replay.clone(),
+            );
+        }
     }
     // every label of a call target maps to the function of its entry
     for (fi, f) in gv.funcs.iter().enumerate() {
